@@ -1,0 +1,5 @@
+//go:build !verif
+
+package resolve
+
+func verifRemoveFlags(res removeResult) uint64 { return 0 }
